@@ -402,7 +402,7 @@ func runC03Concurrent(c *sim.Ctx, t *testing.T) {
 	msg := c03Message(c, pat, 0)
 	bs := c03Bindings(c)
 	desc := fmt.Sprintf("pattern %s message %s bindings %s", ref.Canon(pat), ref.Canon(msg), ref.Canon(map[string]interface{}(bs)))
-	c.PermuteOff = true // the order dimension belongs to C03/order; here the outcome must be comparable
+	// (map iteration inside the matcher is permuted here, too: the outcome may not depend on it)
 	// The reference call is made afterwards, on copies taken now: the concurrent calls are
 	// the first ever to see these pattern, message and bindings objects (anything the
 	// matcher might remember per object is cold when they start).
